@@ -1263,20 +1263,22 @@ Definition full_statement : Prop :=
   forall f c mx t l x, let s := hfinal (srv_init_fs f c mx t) l in let so := hrun1 s x in
   forall p b, In (p, Some b) (attributed s (hs_req x) (snd so)) -> fattr_ok (fs (fst so)) p b.
 
-(* the model (like the Go code it mirrors) refutes it for a block served from the attribute cache: /l -> "d" is a
-   symlink to a directory, MNT "/d/s" and MNT "/l/s" give two handles on the same directory under two paths, the
-   file a is looked up through both, written (5 bytes) through the first; LOOKUP through the second then answers
-   from the cache entry of "/l/s/a": size 3, while Lstat (and GETATTR on that very handle) say 5 *)
+(* the model (like the Go code it mirrors) refutes it for a block served from the attribute cache, through a stale
+   directory handle whose ancestor was replaced by a symlink: tree /d/s/a (3 bytes); LOOKUP gives handle 3 on "/d/s";
+   RENAME /d -> /e; SYMLINK /d -> "e"; LOOKUPs give handle 6 on "/e/s/a"; LOOKUP 3 "a" caches "/d/s/a" (the Lstat
+   follows the intermediate link); WRITE of 5 bytes through handle 6 invalidates "/e/s/a" only; LOOKUP 3 "a" then answers
+   size 3 from the cache while Lstat of "/d/s/a" (and GETATTR on its handle) say 5.  (MNT through a symlink, the
+   shorter route to two names for one directory, is refused since fix 614ea9f.) *)
 Definition c04_alias_fs : fsmap :=
-  fs_set (fs_set (fs_set (fs_set fs_init [[100]] (mk_dir 493 7)) [[100]; [115]] (mk_dir 493 7)) [[100]; [115]; [97]] c04_file)
-         [[108]] (mk_link [100] 7).
+  fs_set (fs_set (fs_set fs_init [[100]] (mk_dir 493 7)) [[100]; [115]] (mk_dir 493 7)) [[100]; [115]; [97]] c04_file.
 Definition c04_alias_hist : list hstep :=
-  c04_hist [RMnt [47; 100; 47; 115]; RMnt [47; 108; 47; 115]; RLookup 1 [97]; RLookup 2 [97]; RWrite 3 0 5 0 [1; 2; 3; 4; 5]].
+  c04_hist [RMnt [47]; RLookup 1 [100]; RLookup 2 [115]; RRename 1 [100] 1 [101]; RSymlink 1 [100] (c04_sattr 511) [101];
+            RLookup 1 [101]; RLookup 4 [115]; RLookup 5 [97]; RLookup 3 [97]; RWrite 6 0 5 0 [1; 2; 3; 4; 5]].
 Lemma full_statement_refuted : ~ full_statement.
 Proof.
   intros H.
-  pose proof (H c04_alias_fs ex_cfg 0%Z 100 c04_alias_hist {| hs_adv := 1; hs_cred := ex_cred; hs_req := RLookup 2 [97] |}
-                [[108]; [115]; [97]]) as HH.
+  pose proof (H c04_alias_fs ex_cfg 0%Z 100 c04_alias_hist {| hs_adv := 1; hs_cred := ex_cred; hs_req := RLookup 3 [97] |}
+                [[100]; [115]; [97]]) as HH.
   vm_compute in HH. destruct (HH _ (or_introl eq_refl)) as (fi & E & _ & _ & S & _).
   injection E as <-. discriminate S.
 Qed.
